@@ -3261,10 +3261,14 @@ pub fn run(out: &mut Out, seed: u64, thorough: bool, replay: Option<&str>) {
     // ---- R1 (C01): the largest legal items on a network whose nodes list 20 closer nodes per answer, like
     //      this library's own servers do: an answer carrying a 1000-byte value, key, signature and 20 nodes is
     //      about 1.7 kB, beyond an Ethernet frame and within the 2048-byte receive buffer
-    for round in 0..(if thorough { 3 } else { 1 }) {
+    //      Every other round the peers list 45 closer nodes instead: the answers that carry the value are then
+    //      longer than the receive buffer, are cut there and no longer decode (no verdict on the result: such
+    //      peers are not this library's; the model cuts at the same MTU)
+    for round in 0..(if thorough { 4 } else { 2 }) {
         t0 += 10_000_000_000_000;
-        let mut net = VNet::new(&mut rng, 25 + 10 * round, true);
-        net.list_k = 20;
+        let oversize = round % 2 == 1;
+        let mut net = VNet::new(&mut rng, if oversize { 50 } else { 25 + 5 * round }, true);
+        net.list_k = if oversize { 45 } else { 20 };
         let boot = vec![net.peers[0].addr];
         let mut d = Driver::new(out, rng.next(), net);
         d.begin("c", &boot, None, rng.next() % 1_000_000 + 1, t0);
@@ -3284,7 +3288,7 @@ pub fn run(out: &mut Out, seed: u64, thorough: bool, replay: Option<&str>) {
         d.settle(20 * SEC, 10 * MS);
         for (g, what) in [(g1, "get_immutable of a 1000-byte value"), (g2, "get_mutable of a 1000-byte value under a 64-byte salt")] {
             let got = d.results(g);
-            if !got.iter().any(|r| r.contains(":item:") || r.contains(":some:")) {
+            if !oversize && !got.iter().any(|r| r.contains(":item:") || r.contains(":some:")) {
                 d.out.violation("C01", "stored-item-not-yielded", format!("{what}, acknowledged by every storing node, on a network whose answers list 20 closer nodes yielded {:?}", got.iter().map(|r| r.chars().take(40).collect::<String>()).collect::<Vec<_>>()));
             }
         }
